@@ -155,6 +155,29 @@ Theorem C20_add_contains (e1 e2 : err) (h : heap) :
     forall w, msubP (err_pairs w h e1 ++ err_pairs w h e2) (res_pairs w h' r).
 Proof. exact (add_contains e1 e2 h). Qed.
 
+(* ---- histories: reads and AddErrorToValidation calls interleaved on the same objects ---- *)
+(* [run_history ops cur h]: the running object cur (a *ValidationError variable, None = nil) goes through ANY
+   sequence of: a read of cur; a read of a descendant reached through GetChildErrors; cur = AddErrorToValidation(cur, a);
+   cur = AddErrorToValidation(a, cur); AddErrorToValidation(descendant, a) - with a any nil / plain / freshly
+   constructed ValidationError / wrapped argument.  For every such history from a well-formed start: no panic, and
+   every step is as specified IN THE STATE THE PREVIOUS STEPS LEFT ([hist_ok] chains [hstep_ok]):
+     - a read returns what the specification says for the value the object has AT THAT MOMENT (whatever was read
+       or added before) and changes no map;
+     - after an Add the running object contains, as multisets of pairs, everything it held before plus the
+       argument's messages, and is well formed again;
+     - no step ever removes a pair from the running object. *)
+Theorem C20_history (ops : list hop) (cur : option ve) (h : heap) :
+  forallb (hop_ok (length h)) ops = true -> cur_wf h cur = true ->
+  exists xs cur' h', run_history ops cur h = Result (xs, cur', h') /\ hist_ok ops cur h xs cur' h'.
+Proof. exact (run_history_spec (length h) ops cur h (le_n _)). Qed.
+
+(* over a whole history nothing is lost: whatever the running object held at the start (and, applying this to a
+   suffix, whatever an Add put into it) is still reported by the flat maps at the end *)
+Theorem C20_history_nothing_lost (ops : list hop) (cur : option ve) (h : heap) xs cur' h' :
+  hist_ok ops cur h xs cur' h' ->
+  heap_le h h' /\ forall w, msubP (res_pairs w h cur) (res_pairs w h' cur').
+Proof. exact (hist_nothing_lost ops cur h xs cur' h'). Qed.
+
 (* ---- non-vacuity ---- *)
 Local Open Scope string_scope.
 
@@ -204,6 +227,28 @@ Example ex_add :
                add_error_to_validation ENil ENilPtr h1 = Result (None, h1).
 Proof. vm_compute. eexists _, _. split; [reflexivity|]. split; reflexivity. Qed.
 
+(* read (Error), join a plain error, read again: the joined message is in the flat map and rendered once;
+   then a child is extended and the parent read again *)
+Example ex_history :
+  let b := BWW (Some 0) (Some 1) (Some [("Address", BNew "Zip" "is invalid" false)]) in
+  let h0 : heap := [[("Name", ["is required"])]; [("Email", ["looks odd"])]] in
+  let '(t, h) := build b h0 in
+  exists cur' h',
+    run_history [HRead RError; HAdd (APlain "lookup failed"); HRead RFlatE; HRead RError;
+                 HAddChild ["Address"] (APlain "no such street"); HRead RFlatE] (Some t) h =
+    Result ([HVal (VLines ["ERROR: is required" +++ nl; "ERROR: is invalid" +++ nl; "WARNING: looks odd" +++ nl]);
+             HAbs (Some (Node (Some [("Name", ["is required"]); ("", ["lookup failed"])]) (Some [("Email", ["looks odd"])])
+                              (Some [("Address", Node (Some [("Zip", ["is invalid"])]) (Some []) None)])));
+             HVal (VMap (Some [("Name", ["is required"]); ("", ["lookup failed"]); ("Address.Zip", ["is invalid"])]));
+             HVal (VLines ["ERROR: is required" +++ nl; "ERROR: lookup failed" +++ nl; "ERROR: is invalid" +++ nl;
+                           "WARNING: looks odd" +++ nl]);
+             HAbs (Some (Node (Some [("Name", ["is required"]); ("", ["lookup failed"])]) (Some [("Email", ["looks odd"])])
+                              (Some [("Address", Node (Some [("Zip", ["is invalid"]); ("", ["no such street"])]) (Some []) None)])));
+             HVal (VMap (Some [("Name", ["is required"]); ("", ["lookup failed"]); ("Address.Zip", ["is invalid"]);
+                               ("Address.", ["no such street"])]))],
+            cur', h').
+Proof. vm_compute. eexists _, _. reflexivity. Qed.
+
 Example ex_has_msg : has_msg false (abs ex_heap ex_tree) "a.b.c" "from a/b".
 Proof. apply C20_spec_paths. vm_compute. tauto. Qed.
 
@@ -218,3 +263,5 @@ Print Assumptions C20_reads_repeatable.
 Print Assumptions C20_constructors.
 Print Assumptions C20_every_construction_wf.
 Print Assumptions C20_add_contains.
+Print Assumptions C20_history.
+Print Assumptions C20_history_nothing_lost.
